@@ -856,6 +856,39 @@ pub fn fixed_cases(thorough: bool) -> Vec<(&'static str, Vec<Op>)> {
     v.push(("empty", vec![NewName(s("k"), None, s("SUM(Sheet1!$A$1:$A$3)*2"))]));
     v.push(("blank", vec![SetLink(0, 1, 1, s("https://example.com/?a=1&b=<2>"), Some(s("l<&>")))]));
     v.push(("empty", vec![SetInternalLink(0, 2, 2, s("Sheet2!A1"), None)]));
+    // every sequence of up to 3 (thorough: 4) links over {external U1, external U2, internal} in successive cells:
+    // repeated targets, alternations and internal links in between (relationship ids are shared state of the writer)
+    let link_at = |k: usize, row: i32| -> Op {
+        match k {
+            0 => SetLink(0, row, 1, s("https://example.com/docs"), None),
+            1 => SetLink(0, row, 1, s("https://example.com/blog"), None),
+            _ => SetInternalLink(0, row, 1, s("Sheet2!A1"), None),
+        }
+    };
+    let cf_at = |k: usize, row: i32| -> Op {
+        let range = format!("A{}:B{}", row, row + 1);
+        match k {
+            0 => AddCfPlain(0, range, s("A1>0")),
+            1 => AddCfFill(0, range, s("A1>1"), s("#FFFF00")),
+            _ => AddCf(0, range, s("A1>2")),
+        }
+    };
+    // every sequence of up to 3 (thorough: 4) conditional formats over {empty format, fill, bold}: the dxf table is
+    // shared state of the writer and the rules index into it
+    for n in 1..=(if thorough { 4usize } else { 3 }) {
+        for code in 0..3usize.pow(n as u32) {
+            let mut c = code;
+            let mut links = vec![];
+            let mut cfs = vec![];
+            for i in 0..n {
+                links.push(link_at(c % 3, 1 + i as i32));
+                cfs.push(cf_at(c % 3, 1 + i as i32));
+                c /= 3;
+            }
+            v.push(("empty", links));
+            v.push(("empty", cfs));
+        }
+    }
     v
 }
 
